@@ -27,7 +27,8 @@ def claim(pid, technique, text, note, ref):
 claim(
     "C18",
     "abstract interpretation of the CPython import protocol over import-time events extracted from "
-    "every module body (ast); exhaustive over start modules and ordered pairs",
+    "every module body (ast), including the bodies of repository functions called at import time "
+    "(constant-folded arguments); exhaustive over start modules and ordered pairs",
     "Decides, from source alone, whether `import m` in a fresh interpreter raises ImportError / "
     "AttributeError because of circular imports, for every non-test start module (exhaustive) and for "
     "ordered pairs (quick: all pairs touching an import cycle + seeded sample; thorough: all N x N), and "
@@ -35,21 +36,25 @@ claim(
     "statement, import stack and error. Plus: third-party module-level imports are declared or guarded.",
     "Assumes external (non-cdd) modules import; walks all arms of module-level if/try; models "
     "sys.modules, partially-initialised modules, from-import submodule fallback and "
-    "bind-child-on-parent-at-completion; does not model NameError or exceptions other than "
-    "import/attribute failures.",
+    "bind-child-on-parent-at-completion; function bodies run when a module-level statement calls them "
+    "(local imports, module attribute chains, globals of a loading module, nested calls to depth 6, "
+    "import_module of a folded name); other exceptions are not modelled.",
     "DESIGN.md §2 C18",
 )
 
 claim(
     "C20",
     "may-write least fixpoint over the resolved reference graph + guard-dominance walk "
-    "(dry_run / proceed) + def-use path provenance with a depth abstraction",
+    "(dry_run / proceed, truth table of the gate) + def-use path provenance with a depth abstraction + "
+    "recognition of the already-in-file guard that protects a source module",
     "Decides 'no file-system mutation of the sink inventory can execute when dry_run is true': every "
     "write site in every function reachable from exmod is dominated by dry_run == False or forwards the "
     "caller's dry_run into a callee that is checked the same way (complete for the inventory). Decides "
     "the blacklist/whitelist gate dominance in exmod_single_folder. Necessary part of containment: every "
     "write path is rooted at exmod's output_directory and never climbs above it (join +n / dirname -1 "
-    "abstraction, guard-sensitive).",
+    "abstraction, guard-sensitive). C20.srcguard: emission into an existing file (for a package outside "
+    "site-packages that file is the source module) is dominated by `no top-level node of that file has the "
+    "symbol's name`.",
     "Trusted: the sink inventory in sa/effects.py; third-party callees (find_packages, black) do not "
     "write; import-system side effects (__pycache__ via find_spec) are outside the inventory. Not "
     "decided: later path components being absolute or '..' (run-time strings); validity of generated "
@@ -60,12 +65,17 @@ claim(
 claim(
     "C11",
     "while-loop progress analysis (exit-relevant vs iteration-constant names on every back-edge path), "
-    "ranking-idiom recognition, infinite-iterator bounding, unchanged-argument recursion",
+    "ranking-idiom recognition, divergence of != tests against monotone updates, delegated-termination "
+    "detection, infinite-iterator bounding, unchanged-argument recursion, parse-tree check of regex literals "
+    "for exponential backtracking",
     "Sound detector of loops that cannot make progress: for every `while` in the package (complete "
     "enumeration), on every path to the back edge some exit-relevant, non-iteration-constant name must be "
     "updated; otherwise the loop repeats one state forever. Loops with a recognised ranking idiom are "
     "proved terminating; the rest are listed as unproved (not reported). Infinite iterators must be "
-    "bounded; self-recursion must change an argument.",
+    "bounded; self-recursion must change an argument. A `!=` exit test against a one-directional update "
+    "without a direction guard, and a loop whose termination is delegated to a repository callee, are "
+    "reported. Every pattern handed to `re` is folded and checked (re._parser, nothing matched) for nested "
+    "unbounded repeats with optional surroundings.",
     "Assumes loop tests/guards are side-effect free (allow-list checked), library calls terminate, and "
     "Python's recursion limit bounds recursion. 'Time proportional to input size' is NOT decided. "
     "Value-level non-termination (an update that happens to be zero) is not decided.",
@@ -110,12 +120,14 @@ claim(
 claim(
     "C19",
     "guard-fact dominance, write-mode inventory over the reference graph, def-use equality of the "
-    "templated name, partial evaluation (constant folding) of the dispatch helpers per CLI kind with "
+    "templated name, three-valued branch evaluation of the identifier sanitiser, module-state rules on the "
+    "per-entry slice, partial evaluation (constant folding) of the dispatch helpers per CLI kind with "
     "signature checks",
     "Decides: the refuse-if-exists test dominates the call to gen in main and its true arm raises; every "
     "write reachable from gen outside the phase>0 arm is append-mode (together: gen never truncates an "
-    "existing file); __all__ receives exactly the templated name handed to the emitter, once per input "
-    "element; for each of the 8 CLI emit kinds the emitter resolves, get_emit_kwarg has the key, the "
+    "existing file); __all__ receives exactly the expression handed to the emitter (sanitiser included), once "
+    "per input element; the sanitiser is the identity on every ASCII identifier that is not a hard keyword; no "
+    "function of the per-entry pipeline keeps module-level state or memoises; for each of the 8 CLI emit kinds the emitter resolves, get_emit_kwarg has the key, the "
     "keywords are parameters of the resolved emitter and its required parameters are supplied (exhaustive "
     "over the finite kind set); the keyword carrying the templated name is the one that names the emitted "
     "symbol.",
@@ -163,7 +175,8 @@ claim(
     "Decides, on every return path of the nine public parsers (and the helpers whose result they return), "
     "that the IR certainly has name, doc and params and no key outside the IntermediateRepr TypedDict; that "
     "constant keys written into parameter entries are in {typ, doc, default, x_typ}; that a parameter entry "
-    "adopted from a foreign-vocabulary object (Column keywords, JSON property) passes a whitelist; that "
+    "adopted from a foreign-vocabulary object (Column keywords, JSON property) passes a whitelist and that a "
+    "foreign key such a producer translates away is removed whenever present (not whenever truthy); that "
     "names taken from source are stripped of leading asterisks; that function.parse reads every "
     "parameter-carrying field of ast.arguments.",
     "NOT decided: that a typ string parses as a Python expression, uniqueness of names coming out of free "
@@ -224,13 +237,16 @@ claim(
     "C16",
     "def/use closure of $ref templates against components stores with guard-fact implication; two "
     "independently derived CRUD tables (emitter arms vs gen_routes -> bottle -> template decorator lines); "
-    "placeholder / path-parameter pairing",
+    "exhaustive folding of each arm's path condition over all CRUD values; placeholder / path-parameter "
+    "pairing; module-state / memoisation rules on the pipeline slice",
     "Decides for cdd.compound.openapi.emit.openapi: every $ref is a constant template whose target is stored "
     "under the same key template whenever the reference is written (requestBodies through the _request_body "
     "flag, schemas unconditionally, ServerError in the initial literal) — i.e. the document is closed for "
     "every model name and CRUD subset; the operations produced are exactly C->POST collection, R->GET item, "
-    "D->DELETE item, both in the OpenAPI emitter and in the generated routes; the item path's template "
-    "parameter is declared as a path parameter.",
+    "D->DELETE item, both in the OpenAPI emitter and in the generated routes, and each arm executes exactly when "
+    "its letter is requested (all 15 orderings of the non-empty subsets folded); the item path's template "
+    "parameter is declared as a path parameter; no function of the pipeline memoises or keeps module state "
+    "(operation objects are not shared between models or documents).",
     "NOT decided: closure of openapi_bulk's output (component key = table name transformed by "
     ".replace('_tbl','').title(), references come out of route docstrings at run time — a convention about "
     "data); JSON serialisability of arbitrary models; routes fed back describe the same model.",
